@@ -106,12 +106,10 @@ func ruleC06ResyncExits(c *Ctx) {
 					case *ast.ReturnStmt:
 						nretParse++
 					case *ast.IfStmt:
-						if be, ok := ast.Unparen(x.Cond).(*ast.BinaryExpr); ok && be.Op == token.EQL {
-							if se, ok := ast.Unparen(be.Y).(*ast.SelectorExpr); ok && info.Uses[se.Sel] == eof {
-								if len(x.Body.List) > 0 {
-									if br, ok := x.Body.List[len(x.Body.List)-1].(*ast.BranchStmt); ok && br.Tok == token.BREAK {
-										eofBreak = true
-									}
+						if known, eq := sentinelCond(info, x.Cond, eof); known && eq {
+							if len(x.Body.List) > 0 {
+								if br, ok := x.Body.List[len(x.Body.List)-1].(*ast.BranchStmt); ok && br.Tok == token.BREAK {
+									eofBreak = true
 								}
 							}
 						}
